@@ -22,6 +22,9 @@ Section Eval.
   Variable text_of : val -> str.               (* the value itself if it is a str, else str(value) *)
   Variable traverse : str -> bool -> option val.   (* traversePath(expr, canCall) *)
   Variable py : str -> val.                    (* eval(expr, globals, locals) incl. its exception text *)
+  (* repaired code: the first alternative of `exists:a | b` / `nocall:a | b` is stripped like the others
+     (true); the pinned code hands "a " with its trailing blank to traversePath (false) *)
+  Variable strip1 : bool.
 
   Definition result := (option val * nat)%type.     (* value or PathNotFound, number of python evaluations *)
 
@@ -61,10 +64,12 @@ Section Eval.
     | alts => first_found ev alts 0
     end.
 
+  Definition first_alt (a : str) : str := if strip1 then strip a else a.
+
   Definition eval_exists (ev : str -> result) (expr : str) : result :=
     match split_on BAR expr with
     | [] => (Some v_false, 0%nat)
-    | a :: r => match traverse a false with
+    | a :: r => match traverse (first_alt a) false with
                 | Some _ => (Some v_true, 0%nat)
                 | None => first_true ev r 0
                 end
@@ -73,7 +78,7 @@ Section Eval.
   Definition eval_nocall (ev : str -> result) (expr : str) : result :=
     match split_on BAR expr with
     | [] => (None, 0%nat)
-    | a :: r => match traverse a false with
+    | a :: r => match traverse (first_alt a) false with
                 | Some v => (Some v, 0%nat)
                 | None => first_found ev r 0
                 end
